@@ -56,6 +56,8 @@ def diagMatvec (d : List α) (x : Tensor α) : Except Err (Tensor α) :=
     .ok (Tensor.ofFn x.shape (fun idx => d.getD (idx.getD 0 0) 0 * x.get idx))
 
 def diagDot (d : List α) (x : Tensor α) : Except Err (Tensor α) :=
+  -- `diag = np.squeeze(diag); assert diag.ndim == 1`: a one-entry diagonal is squeezed to 0-d
+  if d.length = 1 then .error .assertion else
   linopDot d.length d.length (diagMatvec d) (diagMatvec d) x
 
 /-! ### KroneckerOperator (operators.py l.60-86) -/
